@@ -2,7 +2,8 @@
    Proofs/KeysProofs.v and Proofs/IndexesProofs.v.  Every theorem is closed by [exact] and followed by
    Print Assumptions.  "run ... ops" is a fold over an ARBITRARY operation list: no bound on length. *)
 From Coq Require Import NArith List Bool.
-From Verif Require Import Base.Word Model.Keys Model.Indexes Proofs.KeysProofs Proofs.IndexesProofs.
+From Verif Require Import Base.Word Model.Keys Model.Indexes Model.KeysMgr Proofs.KeysProofs Proofs.IndexesProofs
+  Proofs.KeysHashProofs Proofs.KeysMgrProofs.
 Import ListNotations.
 Local Open Scope N_scope.
 
@@ -141,6 +142,33 @@ Theorem C20_circuit_key_injective_refuted_truncation :
 Proof. exact ckey_injective_refuted_truncation. Qed.
 Print Assumptions C20_circuit_key_injective_refuted_truncation.
 
+(* exactly: two circuit-ids (any length) share a key iff they agree after cutting to 32 bytes and dropping
+   trailing zero bytes; that normalisation is the identity on the guard of the _partial theorem *)
+Theorem C20_circuit_key_collide_iff : forall a b, ckey a = ckey b <-> cnorm a = cnorm b.
+Proof. exact ckey_collide_iff. Qed.
+Print Assumptions C20_circuit_key_collide_iff.
+
+Theorem C20_circuit_key_norm_id_on_guard : forall l,
+  (length l <= 32)%nat -> trailing_zero l = false -> cnorm l = l.
+Proof. exact cnorm_id_on_guard. Qed.
+Print Assumptions C20_circuit_key_norm_id_on_guard.
+
+(* ================= ebpf.HashCircuitID ======================================================== *)
+(* the hash is 64-bit FNV-1a over the whole input: every byte, in order, one round
+   ((h xor b) * 0x100000001b3) mod 2^64 from the offset basis, for every byte string *)
+Theorem C20_circuit_hash_is_fnv1a :
+  chash [] = 14695981039346656037 /\
+  forall l b, chash (l ++ [b]) = (N.lxor (chash l) b * 1099511628211) mod 18446744073709551616.
+Proof. exact (conj chash_nil (fun l b => eq_trans (chash_snoc l b) (hstep_mod (chash l) b))). Qed.
+Print Assumptions C20_circuit_hash_is_fnv1a.
+
+(* circuit-ids of any length that differ in exactly one byte (first, middle or last) never share a hash *)
+Theorem C20_circuit_hash_one_byte_differs : forall pre a b suf,
+  wf_bytes suf -> a < 256 -> b < 256 -> a <> b ->
+  chash (pre ++ a :: suf) <> chash (pre ++ b :: suf).
+Proof. exact chash_one_byte_differs. Qed.
+Print Assumptions C20_circuit_hash_one_byte_differs.
+
 (* ================= primary map + secondary indexes ===========================================
    state.Store (kinds 0-3), subscriber.Manager (kind 4), allocator.MemoryAllocationStore (kind 5) *)
 Theorem C20_idx_agree_refuted_duplicate_key :      (* known finding K20d, marker 2020 *)
@@ -170,3 +198,70 @@ Example C20_idx_example :
   exists st, i_run_g (i_init 4 [] []) [ICreate 0 [(0, 1)]; ICreate 1 [(0, 2)]; IUpdate 0 [(1, 9)]; IDelete 1] = Some st /\
              get2 (i_idx st) 1 9 = Some 0.
 Proof. exact idx_guard_satisfiable. Qed.
+
+(* ================= subscriber.Manager under concurrent callers ================================
+   Model/KeysMgr.v: one step = one critical section of CreateSession / AssignAddress / ActivateSession /
+   TerminateSession; [ops] is ANY list of such steps, i.e. every interleaving of any number of calls.
+   On the code after commit 060c165 (AssignAddress re-checks the session after the allocator call). *)
+Theorem C20_mgr_mac_index_refuted_double_teardown :     (* known finding K20g, marker 2024 *)
+  exists ops, ~ mac_agree (g_run (g_init 100 [] []) ops).
+Proof. exact mac_agree_refuted_double_teardown. Qed.
+Print Assumptions C20_mgr_mac_index_refuted_double_teardown.
+
+Theorem C20_mgr_ip_index_refuted_reassign :              (* known finding K20f, marker 2022 *)
+  exists ops, ~ ip_agree (g_run (g_init 100 [] []) ops).
+Proof. exact ip_agree_refuted_reassign. Qed.
+Print Assumptions C20_mgr_ip_index_refuted_reassign.
+
+(* MAC index: forward and reverse agree after every interleaving in which the second section of a
+   TerminateSession finds its session still stored (decidable guard g_guard_mac) *)
+Theorem C20_mgr_mac_index_agrees_partial : forall cap pm pi ops st,
+  g_run_with g_guard_mac (g_init cap pm pi) ops = Some st ->
+  forall m id, aget (g_mac st) m = Some id <->
+               exists o, aget (g_heap st) id = Some o /\ so_stored o = true /\ so_mac o = m.
+Proof. exact mgr_mac_index_agrees_partial. Qed.
+Print Assumptions C20_mgr_mac_index_agrees_partial.
+
+(* both indexes: moreover an address is written only for a session without one and only when no session
+   is indexed under it (guard g_guard) *)
+Theorem C20_mgr_indexes_agree_partial : forall cap pm pi ops st,
+  g_run_with g_guard (g_init cap pm pi) ops = Some st ->
+  (forall m id, aget (g_mac st) m = Some id <->
+                exists o, aget (g_heap st) id = Some o /\ so_stored o = true /\ so_mac o = m) /\
+  (forall k id, aget (g_ip st) k = Some id <->
+                exists o, aget (g_heap st) id = Some o /\ so_stored o = true /\ so_ip o = Some k).
+Proof. exact mgr_indexes_agree_partial. Qed.
+Print Assumptions C20_mgr_indexes_agree_partial.
+
+(* consequently a MAC / an address identifies at most one stored session *)
+Theorem C20_mgr_key_identifies_one : forall st a b oa ob,
+  aget (g_heap st) a = Some oa -> aget (g_heap st) b = Some ob ->
+  so_stored oa = true -> so_stored ob = true ->
+  (mac_agree st -> so_mac oa = so_mac ob -> a = b) /\
+  (ip_agree st -> forall k, so_ip oa = Some k -> so_ip ob = Some k -> a = b).
+Proof. exact mgr_key_identifies_one. Qed.
+Print Assumptions C20_mgr_key_identifies_one.
+
+(* release: the second section of TerminateSession frees the session's MAC and address, leaves every
+   other entry alone, and the MAC is accepted again at once (capacity permitting) *)
+Theorem C20_mgr_term_end_frees : forall st id o,
+  aget (g_heap st) id = Some o ->
+  let st' := g_next_st st (GTermEnd id) in
+  aget (g_mac st') (so_mac o) = None /\
+  (forall m, m <> so_mac o -> aget (g_mac st') m = aget (g_mac st) m) /\
+  (forall k, so_ip o <> Some k -> aget (g_ip st') k = aget (g_ip st) k) /\
+  (forall k, so_ip o = Some k -> aget (g_ip st') k = None) /\
+  (g_count st' < g_cap st' ->
+   o_ret (snd (fst (g_step st' (GCreate (g_next st') (so_mac o))))) = RKey (g_next st')).
+Proof. exact mgr_term_end_frees. Qed.
+Print Assumptions C20_mgr_term_end_frees.
+
+(* non-vacuity: overlapping AssignAddress / TerminateSession of one session, the MAC reused meanwhile *)
+Example C20_mgr_example :
+  exists st, g_run_with g_guard (g_init 100 [] [])
+               [GCreate 0 0; GCreate 1 1; GAssignBegin 1; GAssignWrite 1 11; GAssignEnd 1;
+                GAssignBegin 0; GAssignWrite 0 10; GAssignBegin 0; GTermBegin 0; GAssignEnd 0; GAssignWrite 0 12;
+                GTermEnd 0; GCreate 2 0; GTerm 2; GCreate 3 0] = Some st /\
+             aget (g_mac st) 0 = Some 3 /\ aget (g_mac st) 1 = Some 1 /\ aget (g_ip st) 11 = Some 1 /\
+             aget (g_ip st) 10 = None /\ aget (g_ip st) 12 = None.
+Proof. exact mgr_guard_satisfiable. Qed.
